@@ -103,7 +103,7 @@ def analyzer_cases(draw, tier="quick", histories=False):
 
         d = draw(c05.tracking_histories(tier))
     else:
-        d = draw(MG.manager_cases(tier, tasks=("detection", "tracking"), max_frames=6 if big else 4))
+        d = draw(MG.manager_cases(tier, tasks=("detection", "tracking", "fp_validation"), max_frames=6 if big else 4))
     _scalar_xy(d)
     if d["frame"] == "map" and draw(st.integers(0, 2)) == 0:
         # ego on a slope (any real localisation pose has some roll / pitch): the table is still in the ego's own frame
@@ -129,6 +129,10 @@ def analyzer_cases(draw, tier="quick", histories=False):
                 if vel == "all" or draw(st.booleans()):
                     o["vel"] = [draw(st.integers(-60, 60)) / 4.0, draw(st.integers(-60, 60)) / 4.0, 0.0]  # (cheap draws: the histories are near the entropy limit)
     if not histories:
+        # pass/fail configurations that name `false_positive` with a threshold of its own (FP validation set-ups)
+        for f in d["frames"]:
+            if f["pf"] is not None and any(g["label"] == "false_positive" for g in f["gt"]) and draw(st.integers(0, 1)) == 0:
+                f["pf_fp"] = draw(st.sampled_from([0.6, 1.2, 2.5]))
         # FP-labelled ground truths are exempt from every range filter: occasionally put one outside the analyzer's
         # area grid (|x| > max_x), so that rows without an area occur
         grid_x = float(d["mgr"]["max_x"][0]) if d["mgr"]["kind"] == "xy" else 100.0
@@ -558,6 +562,8 @@ def _body(ctx, d):
         ctx.cls("with_velocity")
     if case.get("slope"):
         ctx.cls("map_frame_ego_on_slope")
+    if any(f.get("pf_fp") is not None for f in case["frames"]):
+        ctx.cls("pass_fail_names_false_positive")
     ctx.mark_nontrivial(tot["TP"] > 0 and n_fp_gt > 0 and n_fp_nogt > 0 and tot["FN"] > 0)
 
 
